@@ -308,12 +308,12 @@ def r03f(ctx):
 
 
 def run(ctx):
-    r03a(ctx)
-    r03b(ctx)
-    r03c(ctx)
-    r03d(ctx)
-    r03e(ctx)
-    r03f(ctx)
+    ctx.guard(r03a)
+    ctx.guard(r03b)
+    ctx.guard(r03c)
+    ctx.guard(r03d)
+    ctx.guard(r03e)
+    ctx.guard(r03f)
 
 
 SELFTEST = {
